@@ -7,6 +7,7 @@ import (
 	"io"
 	"os"
 	"path/filepath"
+	"regexp"
 	"sort"
 	"strings"
 
@@ -33,6 +34,9 @@ type EngCase struct {
 	MoveAfterCache bool   `json:"move_after_cache,omitempty"`
 	MissingFile    string `json:"missing_file,omitempty"`
 	Unreadable     string `json:"unreadable,omitempty"`
+	// BadWorkflowKey damages the `workflow:` key of the first loop of the root file ("missing" | "list" |
+	// "number"): direct preparation rejects such a text, and so must the engine API - with an error
+	BadWorkflowKey string `json:"bad_workflow_key,omitempty"`
 	// results
 	runs []engRun
 }
@@ -45,6 +49,22 @@ type engRun struct {
 	err   string
 }
 
+var workflowKeyLine = regexp.MustCompile(`(?m)^    workflow: .*\n`)
+
+// rootText is the root workflow file's text, with the damage of BadWorkflowKey applied.
+func (ec *EngCase) rootText(c *Case) string {
+	text := c.Program.YAML()
+	if ec.BadWorkflowKey == "" {
+		return text
+	}
+	loc := workflowKeyLine.FindStringIndex(text)
+	if loc == nil {
+		return text
+	}
+	repl := map[string]string{"missing": "", "list": "    workflow: [\"a.yaml\"]\n", "number": "    workflow: 5\n"}[ec.BadWorkflowKey]
+	return text[:loc[0]] + repl + text[loc[1]:]
+}
+
 func (ec *EngCase) body(c *Case) func(b *harness.BodyCtx) {
 	return func(b *harness.BodyCtx) {
 		ec.runs = nil
@@ -54,7 +74,7 @@ func (ec *EngCase) body(c *Case) func(b *harness.BodyCtx) {
 		}
 		defer os.RemoveAll(root)
 		dir := filepath.Join(root, "ctx")
-		files := map[string]string{"workflow.yaml": c.Program.YAML()}
+		files := map[string]string{"workflow.yaml": ec.rootText(c)}
 		for k, v := range c.Program.Files() {
 			files[k] = v
 		}
@@ -154,7 +174,7 @@ func (ec *EngCase) body(c *Case) func(b *harness.BodyCtx) {
 				fm[k] = []byte(v)
 			}
 		}
-		wf, err := b.Env.Prepare(c.Program.YAML(), fm)
+		wf, err := b.Env.Prepare(ec.rootText(c), fm)
 		if err != nil {
 			direct.err = "prepare: " + err.Error()
 		} else {
@@ -227,6 +247,14 @@ func genEngCase(t *rapid.T) *Case {
 			ec.Unreadable = n
 		}
 	}
+	if len(names) > 0 && ec.MissingFile == "" && ec.Unreadable == "" && rapid.IntRange(0, 9).Draw(t, "bad_workflow_key") == 0 {
+		for _, st := range prog.Steps {
+			if st.Kind == "foreach" {
+				ec.BadWorkflowKey = rapid.SampledFrom([]string{"missing", "list", "number"}).Draw(t, "bad_workflow_key_kind")
+				break
+			}
+		}
+	}
 	c.Eng = ec
 	return c
 }
@@ -251,6 +279,14 @@ func engCheck(c *Case, r *harness.Result) []Violation {
 	}
 	doc, derr := c.NormDoc()
 	direct := ec.runs[2]
+	if ec.BadWorkflowKey != "" {
+		for _, run := range ec.runs {
+			if run.err == "" {
+				out = append(out, viol("C20", "bad-workflow-key-accepted", ec.BadWorkflowKey, "%s succeeded although the workflow key of a loop is %s", run.how, ec.BadWorkflowKey))
+			}
+		}
+		return out
+	}
 	fileFault := ec.MissingFile != "" || ec.Unreadable != ""
 	for _, run := range ec.runs[:2] {
 		if fileFault {
